@@ -40,3 +40,6 @@ CLAIMS = {
                      "Correspondence run (exhaustive 0..12 scope in thorough) + monitor tie the model to the contract and exhibit failing inputs.",
                 note=NOTE, technique=TECH),
 }
+
+for _p in PROPS.values():
+    _p.setdefault("cover_files", ['contracts/netmap/'])
